@@ -9,6 +9,7 @@
 (* stateful is claimed for this property (DESIGN.md section 4, C18).       *)
 (***************************************************************************)
 EXTENDS Naturals, Sequences, FiniteSets, TLC, Json
+CONSTANT NTok   \* number of whitespace-free tokens in scope (4 quick, 8 thorough)
 
 Tables == [
   Priority          |-> {"required", "important", "standard", "optional", "extra"},
@@ -22,7 +23,7 @@ EnumTypes == DOMAIN Tables
 AllKeywords == UNION { Tables[t] : t \in EnumTypes }
 Mangled == {"", "x", "Required ", " no", "deb src", "=>", "<", "none", "true"}
 
-Tok == 1..4          \* whitespace-free tokens
+Tok == 1..NTok       \* whitespace-free tokens
 Int == 1..4          \* 0, 1, 2^31-1, 2^63
 Opt(S) == S \cup {0}
 
@@ -35,14 +36,16 @@ Init ==
   \/ \E ty \in {"Sha1Checksum", "Sha256Checksum", "Sha512Checksum", "Md5Checksum"} : \E h \in Tok, n \in Int, fn \in Tok : case = V(ty, <<h, n, fn>>)
   \/ \E p \in Tok, ty \in 1..2, s \in 1..2, pr \in 1..5, ex \in SUBSET {1, 2} : case = V("PackageListEntry", <<p, ty, s, pr, IF 1 \in ex THEN 1 ELSE 0, IF 2 \in ex THEN 1 ELSE 0>>)
   \/ \E h \in 1..2, n \in Int, s \in 1..2, pr \in 1..5, fn \in Tok : case = V("changes::File", <<h, n, s, pr, fn>>)
-  \/ \E neg \in 0..1, n \in Tok : case = V("BuildProfile", <<neg, n>>)
-  \/ \E kind \in 1..3, u \in Tok : case = V("Forwarded", <<kind, u>>)
-  \/ \E ty \in {"Origin", "AppliedUpstream"} : \E kind \in 1..2, u \in Tok : case = V(ty, <<kind, u>>)
+  \/ \E neg \in 0..1, n \in 1..4 : case = V("BuildProfile", <<neg, n>>)
+  \/ \E kind \in 1..3, u \in 1..4 : case = V("Forwarded", <<kind, u>>)
+  \/ \E ty \in {"Origin", "AppliedUpstream"} : \E kind \in 1..2, u \in 1..4 : case = V(ty, <<kind, u>>)
   \/ \E u \in 1..3, b \in Opt(1..2), sp \in Opt(1..2) : case = V("ParsedVcs", <<u, b, sp>>)
   \/ \E name \in 1..5, u \in 1..3, b \in Opt(1..2), sp \in Opt(1..2) : case = V("Vcs", <<name, u, b, sp>>)
   \/ \E kind \in 1..3, n \in 1..2, t \in 1..3 : case = V("License", <<kind, n, t>>)
   \/ \E kind \in 1..2, t \in 1..3 : case = V("Signature", <<kind, t>>)
   \* DEP-3 Origin field: optional category prefix "<category>, " in front of the origin (through the patch header readers)
-  \/ \E cat \in 0..4, kind \in 1..2, u \in Tok : case = V("Dep3OriginField", <<cat, kind, u>>)
+  \/ \E cat \in 0..4, kind \in 1..2, u \in 1..4 : case = V("Dep3OriginField", <<cat, kind, u>>)
+  \* a bare category ("Origin: vendor"): kind 0, no location
+  \/ \E cat \in 1..4 : case = V("Dep3OriginField", <<cat, 0, 1>>)
 Emit == PrintT(<<"REPLAY", ToJson(case)>>)
 =============================================================================
